@@ -32,7 +32,7 @@ theorem everTrue_eq_false (p : Nat → Bool) (it : Nat) : everTrue p it = false 
 
 /-- an always-assertion is violated after the event of iteration `i` -/
 def Spec.violatedAt (ns : Nodes) : Spec → Nat → Bool
-  | .alwaysProto T pred, i => (List.range ns.n).any (fun node => ns.ptype node == T && !pred i node)
+  | .alwaysProto T pred, i => (List.range ns.n).any (fun node => ns.isA node T && !pred i node)
   | .alwaysSim pred, i => !pred i
   | _, _ => false
 
@@ -41,7 +41,7 @@ def Spec.neverMet (ns : Nodes) (eager : Bool) : Spec → Nat → Bool
   | .eventuallySim pred, N => !everTrue pred N
   | .eventuallyProto T pred, N =>
     (eager || decide (0 < N)) &&
-      (List.range ns.n).any (fun node => ns.ptype node == T && !everTrue (fun j => pred j node) N)
+      (List.range ns.n).any (fun node => ns.isA node T && !everTrue (fun j => pred j node) N)
   | _, _ => false
 
 /-- the state of a test case after the hooks of iterations 0 … it-1 all passed -/
@@ -51,7 +51,7 @@ def stateAfter (ns : Nodes) (eager : Bool) : Spec → Nat → TState
   | .eventuallySim pred, it => .flag (everTrue pred it)
   | .eventuallyProto T pred, it =>
     .perNode (fun node =>
-      if decide (node < ns.n) && ns.ptype node == T && (eager || decide (0 < it))
+      if decide (node < ns.n) && ns.isA node T && (eager || decide (0 < it))
       then some (everTrue (fun j => pred j node) it) else none)
 
 /-- a loop over distinct nodes in which each round rewrites only its own node's entry -/
@@ -74,16 +74,16 @@ theorem foldl_pointwise (c : NodeId → Bool) (g : NodeId → Option Bool → Op
       · by_cases hc : c a <;> simp [hm, hma, hc, Sim.upd]
 
 theorem registerAll_eq (ns : Nodes) (T : PType) (d : NodeId → Option Bool) :
-    registerAll ns T d = fun m => if m < ns.n ∧ (ns.ptype m == T) = true then some false else d m := by
-  have h := foldl_pointwise (fun node => ns.ptype node == T) (fun _ _ => some false) (List.range ns.n)
+    registerAll ns T d = fun m => if m < ns.n ∧ (ns.isA m T) = true then some false else d m := by
+  have h := foldl_pointwise (fun node => ns.isA node T) (fun _ _ => some false) (List.range ns.n)
     List.nodup_range d
   simp only [List.mem_range] at h
   exact h
 
 theorem noteAll_eq (ns : Nodes) (T : PType) (pred : NodeId → Bool) (d : NodeId → Option Bool) :
-    noteAll ns T pred d = fun m => if m < ns.n ∧ (ns.ptype m == T) = true then
+    noteAll ns T pred d = fun m => if m < ns.n ∧ (ns.isA m T) = true then
       (if pred m then some true else if (d m).isNone then some false else d m) else d m := by
-  have h := foldl_pointwise (fun node => ns.ptype node == T)
+  have h := foldl_pointwise (fun node => ns.isA node T)
     (fun node x => if pred node then some true else if x.isNone then some false else x) (List.range ns.n)
     List.nodup_range d
   simp only [List.mem_range] at h
@@ -102,7 +102,7 @@ theorem init_eq_stateAfter (ns : Nodes) (eager : Bool) (s : Spec) : s.init ns ea
     · funext m; simp
     · rw [registerAll_eq]
       funext m
-      by_cases h1 : m < ns.n <;> by_cases h2 : (ns.ptype m == T) = true <;> simp [h1, h2]
+      by_cases h1 : m < ns.n <;> by_cases h2 : (ns.isA m T) = true <;> simp [h1, h2]
 
 /-- one hook call in closed form -/
 theorem testIteration_stateAfter (ns : Nodes) (eager : Bool) (s : Spec) (it : Nat) :
@@ -111,14 +111,14 @@ theorem testIteration_stateAfter (ns : Nodes) (eager : Bool) (s : Spec) (it : Na
   cases s with
   | alwaysProto T pred =>
     simp only [testIteration, stateAfter, Spec.violatedAt]
-    have : ((List.range ns.n).all fun node => !(ns.ptype node == T) || pred it node) =
-        !((List.range ns.n).any fun node => ns.ptype node == T && !pred it node) := by
+    have : ((List.range ns.n).all fun node => !(ns.isA node T) || pred it node) =
+        !((List.range ns.n).any fun node => ns.isA node T && !pred it node) := by
       rw [List.all_eq_not_any_not]
       congr 2
       funext node
-      cases (ns.ptype node == T) <;> cases pred it node <;> rfl
+      cases (ns.isA node T) <;> cases pred it node <;> rfl
     rw [this]
-    by_cases h : ((List.range ns.n).any fun node => ns.ptype node == T && !pred it node) = true <;> simp [h]
+    by_cases h : ((List.range ns.n).any fun node => ns.isA node T && !pred it node) = true <;> simp [h]
   | alwaysSim pred =>
     simp only [testIteration, stateAfter, Spec.violatedAt]
     by_cases h : pred it = true <;> simp [h]
@@ -131,9 +131,9 @@ theorem testIteration_stateAfter (ns : Nodes) (eager : Bool) (s : Spec) (it : Na
     funext m
     rw [everTrue_succ]
     rcases Nat.eq_zero_or_pos it with rfl | h0
-    · by_cases h1 : m < ns.n <;> by_cases h2 : (ns.ptype m == T) = true <;>
+    · by_cases h1 : m < ns.n <;> by_cases h2 : (ns.isA m T) = true <;>
         cases eager <;> cases hp : pred 0 m <;> simp [h1, h2, hp, everTrue_zero]
-    · by_cases h1 : m < ns.n <;> by_cases h2 : (ns.ptype m == T) = true <;>
+    · by_cases h1 : m < ns.n <;> by_cases h2 : (ns.isA m T) = true <;>
         cases eager <;> cases hp : pred it m <;> cases he : everTrue (fun j => pred j m) it <;>
         simp [h1, h2, hp, he, h0]
 
@@ -173,7 +173,7 @@ theorem finalize_stateAfter (ns : Nodes) (eager : Bool) (s : Spec) (N : Nat) :
       Bool.not_eq_eq_eq_not, Bool.not_true]
     constructor
     · intro h hg
-      cases hany : (List.range ns.n).any (fun node => ns.ptype node == T && !everTrue (fun j => pred j node) N)
+      cases hany : (List.range ns.n).any (fun node => ns.isA node T && !everTrue (fun j => pred j node) N)
       · rfl
       · rw [List.any_eq_true] at hany
         obtain ⟨node, hmem, hnode⟩ := hany
@@ -185,7 +185,7 @@ theorem finalize_stateAfter (ns : Nodes) (eager : Bool) (s : Spec) (N : Nat) :
       by_cases hg : (eager = true ∨ 0 < N)
       · have hf := h hg
         rw [← Bool.not_eq_true, List.any_eq_true] at hf
-        by_cases hT : (ns.ptype node == T) = true
+        by_cases hT : (ns.isA node T) = true
         · cases he : everTrue (fun j => pred j node) N
           · exact absurd ⟨node, List.mem_range.mpr hnode, by simp [hT, he]⟩ hf
           · cases eager <;> simp_all
